@@ -79,7 +79,7 @@
   static inline _Bool N##_empty(const struct N *v) { V_GUARD(v); return v->size == 0; } \
   static inline void N##_reserve(struct N *v, size_t n) { (void)v; (void)n; } \
   static inline void N##_clear(struct N *v) { V_GUARD(v); v->size = 0; } \
-  static inline void N##_push_back(struct N *v, T x) { V_GUARD(v); V_ABS_HOOK(v, 1); (void)x; __CPROVER_assume(v->size + 1 < V_MAXSZ); v->size++; } \
+  static inline void N##_push_back(struct N *v, T x) { V_GUARD(v); V_ABS_HOOK(v, 1); (void)x; __CPROVER_assume(v->size < V_MAXSZ - 1); v->size++; } \
   static inline void N##_pop_back(struct N *v) { V_GUARD(v); V_ABS_HOOK(v, 2); __CPROVER_assert(v->size > 0, "vector::pop_back on a non-empty vector"); v->size--; } \
   static inline void N##_pop_front(struct N *v) { V_GUARD(v); __CPROVER_assert(v->size > 0, "deque::pop_front on a non-empty container"); v->size--; } \
   static inline T *N##_index(struct N *v, size_t i) { V_GUARD(v); __CPROVER_assert(i < v->size, "vector::operator[] index in range"); return N##_any(); } \
